@@ -12,8 +12,13 @@ import traceback
 from . import env
 from .xplore import Stats, HarnessError
 
-EVIDENCE_DIR = os.path.join(env.HOME, "evidence")
-REPLAY_DIR = os.path.join(env.HOME, "replays")
+# runs against another tree than /repo (seeded changes, mutants: VERIF_REPO) must not overwrite the
+# evidence of the real tree: their output goes to VERIF_OUT (default: a scratch directory)
+_OUT = os.environ.get("VERIF_OUT") or (
+    env.HOME if os.path.realpath(env.REPO) == "/repo"
+    else "/var/tmp/verif-out/" + os.path.basename(os.path.realpath(env.REPO)))
+EVIDENCE_DIR = os.path.join(_OUT, "evidence")
+REPLAY_DIR = os.path.join(_OUT, "replays")
 KNOWN_FILE = os.path.join(env.HOME, "known_findings.json")
 
 
